@@ -3,6 +3,9 @@
 import json
 SC="stateless model checking of the implementation under a controlled scheduler (iterative preemption/delay bounding)"
 CHECKS = {
+ "C14": dict(engine="vsched", technique=SC+" + explicit-state search over API request histories",
+   text="all interleavings within a deviation bound of concurrent Collect* calls with Snapshot/SnapshotAndReset on the real collector (conservation of every counter per user across successive snapshots), and every API request history to a stated depth through the real ssm handlers against a reference model",
+   note="sequential consistency; finite scenario list and alphabet stated in evidence"),
  "C15": dict(engine="vsched", technique=SC,
    text="every interleaving (scheduling points at each mutex, atomic, channel, select, once and timer operation) of 3-7 threads on one real PipeConn pair, within a stated preemption/delay bound, is executed on the implementation and checked against a byte-stream reference",
    note="sequential consistency; schedule space bounded by deviations (bound reported per scenario); scenario family is finite and listed in evidence"),
